@@ -474,8 +474,22 @@ def coq_example_cases():
     exp3 = collections.OrderedDict([
         (b"q", {"occ": [[b"true"]], "idx": [1]}), (b"m", {"occ": [[b"A"]], "idx": [3]}),
         (b"f", {"occ": [[b"F"]], "idx": [4]}), (b"r", {"occ": [[b"-x", b"R"]], "idx": [5, 6]})])
+    # UnparseLift.v (C02_positional_order_nonvacuous): the index-2 positional is declared first; line A B C
+    order = {"name": b"p", "args": [arg(b"1", index=1), arg(b"2", index=2, num=(1, None))], "decl_order": [1, 0],
+             "groups": [], "subs": [], "settings": [], "aliases": []}
+    toks4 = [b"A", b"B", b"C"]
+    exp4 = collections.OrderedDict([(b"1", {"occ": [[b"A"]], "idx": [1]}), (b"2", {"occ": [[b"B", b"C"]], "idx": [2, 3]})])
+    # UnparseLift.v (C02_osstring_nonvacuous): OsString values that are not UTF-8, every (empty) piece kept
+    osc = {"name": b"p", "args": [arg(b"m", short="m", long=b"mu", action="append", num=(1, 3), delim=",", vp="os"),
+                                  arg(b"f", vp="os")], "groups": [], "subs": [], "settings": [], "aliases": []}
+    toks5 = [b"--mu", b"a,,b", b",a", b"b,", b"--mu=\xff,\xc3", b"-m\xe9", b"g\xe9n"]
+    exp5 = collections.OrderedDict([
+        (b"m", {"occ": [[b"a", b"", b"b", b"", b"a", b"b", b""], [b"\xff", b"\xc3"], [b"\xe9"]],
+                "idx": [2, 3, 4, 5, 6, 7, 8, 10, 11, 13]}),
+        (b"f", {"occ": [[b"g\xe9n"]], "idx": [14]})])
     out = []
-    for c, toks, lv in ((one, toks1, [(exp1, None)]), (two, toks2, exp2), (one, toks3, [(exp3, None)])):
+    for c, toks, lv in ((one, toks1, [(exp1, None)]), (two, toks2, exp2), (one, toks3, [(exp3, None)]),
+                        (order, toks4, [(exp4, None)]), (osc, toks5, [(exp5, None)])):
         argv = [b"p"] + toks
         base = gen_cmd.cmd_sx(c)
         body = base[:-1] + " (x-expect %s %s))" % (guard(base, argv), expect_sx(lv))
